@@ -2,7 +2,7 @@
 # run_all.sh [tier]  -- every claimed check, sequentially, on /repo's working tree; prints one line per property
 T=${1:-quick}
 cd /verif
-for p in $(python3 -c "import json; print(' '.join(x['id'] for x in json.load(open('MANIFEST.json'))['properties']))"); do
+for p in $(python3 -c "import json; print(' '.join(x['property_id'] for x in json.load(open('MANIFEST.json'))['checks']))"); do
   s=$(date +%s); out=$(./check $p --tier $T 2>&1); rc=$?
   echo "$p rc=$rc $(( $(date +%s) - s ))s $(echo "$out" | tail -1)"
   echo "$out" | grep -E "^(VIOLATION|UNDECIDED|KNOWN-FINDING)" | cut -c1-220 | head -20
